@@ -21,7 +21,7 @@ PROPERTY = "C08"
 LEVEL = "fault_enumeration"
 FANOUT_CHUNK = 1
 RULE = (
-    "workloads {W1 create catalog (W1p: with two workers, crash points in the writer process), W2 overwrite a catalog of other data (W2p: with two workers; the value returned by the surviving parent must be the complete new catalog), W3 open a catalog without meta.yml (metadata "
+    "workloads {W1 create catalog (W1p: with two workers, crash points in the writer process; W1b: patches of 19 kB written in 12 chunks of 1.6 kB), W2 overwrite a catalog of other data (W2p: with two workers; the value returned by the surviving parent must be the complete new catalog), W3 open a catalog without meta.yml (metadata "
     "computed), W4 first build_trees, W5 rebuild for other edges of the same bin count (W5f: forced), W6 rebuild binned->unbinned, W7 "
     "CorrFunc.to_file over an older file, W8 CorrData.to_files over older files, W9 Configuration.to_file over an older "
     "file} x every crash point = entry of every mutating file-system call (mkdir, creating/truncating openat, write, "
@@ -39,8 +39,8 @@ ASSUMPTIONS = [
     "sequential pipeline only (YAW_NUM_THREADS=1)",
 ]
 
-QUICK = ("W1", "W2", "W5", "W5f", "W7", "W8", "W2p")
-ALL = ("W1", "W2", "W3", "W4", "W5", "W5f", "W6", "W7", "W8", "W9", "W1p", "W2p")
+QUICK = ("W1", "W2", "W5", "W5f", "W7", "W8", "W2p", "W1b")
+ALL = ("W1", "W2", "W3", "W4", "W5", "W5f", "W6", "W7", "W8", "W9", "W1p", "W2p", "W1b")
 
 
 def norm(text, base):
@@ -102,7 +102,8 @@ def fresh():
     cn = W.make(d + "/new", new, chunksize=3)
     co = W.make(d + "/old", old)
     cu = W.make(d + "/unk", unk)
-    _fresh["records"] = dict(new=records_of(cn), old=records_of(co))
+    _fresh["records"] = dict(new=records_of(cn), old=records_of(co),
+                             big=records_of(W.make(d + "/big", W.big_frame(), chunksize=100)))
     # W3's completed step: metadata recomputed by Catalog(cache) after meta.yml went missing
     from yaw import Catalog
 
@@ -167,6 +168,17 @@ def observe(wl, base):
     F = fresh()
     bad = []
     R = os.path.join(base, "R")
+    if wl == "W1b":
+        try:
+            cat = Catalog(R)
+            recs = records_of(cat)
+        except Exception:
+            return bad
+        if recs != F["records"]["big"]:
+            n = sum(len(r[1]) for r in recs.values())
+            bad.append(("opens-with-incomplete-records",
+                        f"Catalog(cache) opens with {len(recs)} patches / {n} records of the 1200 written in 12 chunks"))
+        return bad
     if wl in ("W1", "W1p", "W2", "W2p", "W3", "W4", "W5", "W5f", "W6"):
         try:
             cat = Catalog(R)
